@@ -85,6 +85,16 @@ def as_array(case, data=None):
     return a.reshape(case["shape"])
 
 
+def as_input(case, arr):
+    """the object handed to the tool: the float array, an integer ndarray, or a nested Python list of ints"""
+    ad = case.get("arr_dtype")
+    if ad == "int64":
+        return arr.astype(np.int64)
+    if ad == "list":
+        return arr.astype(np.int64).tolist()
+    return arr
+
+
 def records_matrix(arr, red):
     mv = np.moveaxis(arr, red, range(len(red)))
     nrec = int(np.prod([arr.shape[i] for i in red])) if red else 1
@@ -161,12 +171,13 @@ def run_tool(case, arr=None, sample=None, weights="same", forced_seed=1):
                         if tool != "count_nonzero":
                             kw["bounds"] = bounds_of(case)
                             kw["dtype"] = _dtype(case.get("dtype"))
-                        out = fn(arr, **kw)
+                        out = fn(as_input(case, arr), **kw)
                     elif fam == "quant":
                         axis = case.get("axis")
                         axis = tuple(axis) if isinstance(axis, list) else axis
                         kw = dict(epsilon=eps, bounds=bounds_of(case), axis=axis, keepdims=case.get("keepdims", False),
                                   random_state=rs, accountant=dp.BudgetAccountant())
+                        arr = as_input(case, arr)
                         if tool == "median":
                             out = fn(arr, **kw)
                         else:
@@ -326,6 +337,22 @@ def gen_stat_case(r, max_n, tool=None):
     arr = np.empty(shape)
     mv = np.moveaxis(arr, red, range(len(red)))
     mv[...] = M.reshape(mv.shape)
+    if nan_p == 0.0 and case.get("dtype") in (None, "float64") and r.chance(0.15):
+        # integer-typed input (ndarray of ints or a plain list of ints) with the same, generally non-integer, bounds
+        case["arr_dtype"] = r.choice(["int64", "list"])
+        if r.chance(0.5) and not isinstance(case["bounds"][0], list) and tool != "count_nonzero":
+            lo = float(r.randint(-3, 3)) + r.choice([0.5, 0.9, 0.1, 0.75])
+            case["bounds"] = [lo, lo + r.choice([0.2, 0.7, 1.7, 2.4])]
+            cb = cell_bounds(case, ncell)
+        arr = np.trunc(np.clip(arr, -1e6, 1e6))
+        # integers near the bounds, so that records get clipped at a fractional bound
+        mv = np.moveaxis(arr, red, range(len(red)))
+        Mi = np.empty((nrec, ncell))
+        for c in range(ncell):
+            l, u = cb[c]
+            for i in range(nrec):
+                Mi[i, c] = float(r.randint(int(math.floor(l)) - 2, int(math.ceil(u)) + 2))
+        mv[...] = Mi.reshape(mv.shape)
     case["data"] = arr.ravel().tolist()
     case["nan_p"] = nan_p
     return case
@@ -357,11 +384,17 @@ def gen_neighbour(r, case, kind=None):
             new.append(r.uniform(l, u) if old != old else float("nan"))
         else:
             new.append(gen_value(r, l, u, 0.2 if nanable else 0.0))
+    if case.get("arr_dtype"):
+        new = [float(r.choice([math.floor(cb[c][0]) - 1, math.floor(cb[c][0]), math.ceil(cb[c][1]), math.ceil(cb[c][1]) + 1,
+                               r.randint(int(math.floor(cb[c][0])) - 2, int(math.ceil(cb[c][1])) + 2)])) for c in range(ncell)]
+        kind = kind + "-int"
     return {"rec": rec, "new": new, "kind": kind}
 
 
 def make_corner_case(r, case):
     """move every other record to one corner of its bounds so that the replaced record swings the statistic most"""
+    if case.get("arr_dtype"):
+        return case
     mode, red, red_shape, kept, _ = layout(case)
     ncell = int(np.prod(kept)) if mode == "axis" else 1
     cb = cell_bounds(case, ncell)
@@ -398,8 +431,12 @@ def gen_quant_case(r, max_n):
             u = l + r.choice([0.0, 1e-7, 5e-6, 2e-5])     # around min_separation
         case["bounds"] = [l, u]
     if tool != "median":
+        nrec_q = int(np.prod(red_shape)) if red_shape else 1
+
         def q1():
-            return r.choice([0.0, 1.0, 0.5, 0.25, 0.9, r.u01(), r.u01()])
+            # includes extreme, not exactly representable ranks: 0 < q*k < 1 and k-1 < q*k < k
+            ext = r.uniform(0.05, 0.98) / max(nrec_q, 1)
+            return r.choice([0.0, 1.0, 0.5, 0.25, 0.9, r.u01(), r.u01(), ext, 1.0 - ext])
         if r.chance(0.45):
             case["quant"] = [q1() for _ in range(r.randint(2, 4))]
         else:
@@ -414,6 +451,12 @@ def gen_quant_case(r, max_n):
             if ties and i > 0 and r.chance(0.4):
                 v = M[r.randint(0, i - 1), c]
             M[i, c] = v
+    if r.chance(0.15):
+        case["arr_dtype"] = r.choice(["int64", "list"])
+        for c in range(ncell):
+            l, u = cb[c]
+            for i in range(nrec):
+                M[i, c] = float(r.randint(int(math.floor(l)) - 2, int(math.ceil(u)) + 2))
     arr = np.empty(shape)
     mv = np.moveaxis(arr, red, range(len(red)))
     mv[...] = M.reshape(mv.shape)
@@ -843,7 +886,8 @@ def lean_lines(case, calls, out, forced_seed=1):
             for l, u in cb:
                 bl += [l, u]
             line = f"axis {lt} {f2b(eps)} {ncell} {M.shape[0]} {bits(bl)} {bits(o)} {bits(M.ravel())}"
-            res.append((line, {"kind": "trace", "calls": calls, "release": list(np.asarray(out, dtype=float).ravel()),
+            res.append((line, {"kind": "trace", "calls": calls,
+                               "release": None if case.get("arr_dtype") else list(np.asarray(out, dtype=float).ravel()),
                                "tol_in": tol_in, "scale": [scale_of(tool, l, u, M.shape[0]) for l, u in cb]}))
         return res
     if fam == "hist":
@@ -886,7 +930,8 @@ def lean_lines(case, calls, out, forced_seed=1):
             l, u = cb[c]
             call = calls[k]
             line = f"quantile {bits([e_c, l, u, 1e-5, qv])} {int(call.forced)} {f2b(case.get('uni', 0.5))} {bits(M[:, c] if mode == 'axis' else M[:, 0])}"
-            res.append((line, {"kind": "quant", "call": call, "release": float(rel[k]), "eps": e_c}))
+            res.append((line, {"kind": "quant", "call": call, "eps": e_c,
+                               "release": None if (case.get("arr_dtype") and mode == "axis") else float(rel[k])}))
             k += 1
     return res
 
@@ -943,6 +988,8 @@ def compare_answer(ctx, case, line, expect, ans):
         assert w[pos] == "R"
         rel = [b2f(int(x)) for x in w[pos + 1:]]
         impl_rel = expect["release"]
+        if impl_rel is None:      # integer-typed input: `dummy` is an integer array and casts the releases
+            return True
         if len(rel) != len(impl_rel) or any(not close(a, b, 1e-12) for a, b in zip(rel, impl_rel)):
             ctx.disagree("tools.release", {"case": brief(case)}, rel[:6], impl_rel[:6])
             return False
@@ -1014,7 +1061,7 @@ def compare_answer(ctx, case, line, expect, ans):
             if got.shape != cum.shape or not np.allclose(got, cum, rtol=0, atol=1e-9):
                 ctx.disagree("tools.quantile", {"case": brief(case), "field": "probabilities"}, cum[:8].tolist(), got[:8].tolist())
                 return False
-        if not close(rel, expect["release"], 1e-12, 1e-13 * span):
+        if expect["release"] is not None and not close(rel, expect["release"], 1e-12, 1e-13 * span):
             ctx.disagree("tools.quantile", {"case": brief(case), "field": "release"}, rel, expect["release"])
             return False
         return True
